@@ -17,11 +17,11 @@ static std::string oracle(const Case& c) {
     bool dflt = false;
 #ifdef VERIF_WRAP
     // the built-in default clock (time entry NULL): libc time() is interposed and answers t
-    if (c.u("defaultclock")) { dflt = true; deps::inject(0, deps::OPT_ALLOC | deps::OPT_FREE); polyseed_enable_features(7); auto& w = deps::wrap(); w.enabled = true; w.window = true; w.fake = true; w.fake_time = t; w.time_calls = 0; }
+    if (c.u("defaultclock")) { dflt = true; deps::inject(0, deps::OPT_ALLOC | deps::OPT_FREE); polyseed_enable_features(7); auto& w = deps::wrap(); w.enabled = true; w.window = true; w.fake = true; w.fake_time = t; w.time_calls = 0; w.foreign_calls = 0; w.env_fake = deps::env_value(c.u("env")); /* every environment variable the library might ask for holds this */ }
 #endif
     lib::SeedPtr s; int st = polyseed_create((unsigned)c.u("ufeat") & 7u, s.out());
 #ifdef VERIF_WRAP
-    if (dflt) { auto& w = deps::wrap(); w.window = false; w.fake = false; uint64_t calls = w.time_calls; w.enabled = false; deps::inject(0); polyseed_enable_features(7); if (st == 0 && calls < 1) return "no clock injected but create did not call libc time()"; if (st == 0) k.time_calls = 1; ev.count("default-clock(libc time interposed)"); }
+    if (dflt) { auto& w = deps::wrap(); w.window = false; w.fake = false; w.env_fake = nullptr; uint64_t calls = w.time_calls; w.enabled = false; if (w.foreign_calls) ev.count("foreign-source-consulted");   /* judged by C18; here only its effect on the birthday counts */ deps::inject(0); polyseed_enable_features(7); if (st == 0 && calls < 1) return "no clock injected but create did not call libc time()"; if (st == 0) k.time_calls = 1; ev.count("default-clock(libc time interposed)"); }
 #endif if (st != 0) { s.p = nullptr; return std::string("create returned ") + model::status_name(st); }
     if (k.time_calls < 1) return "create did not consult the injected clock";
     uint64_t B = polyseed_get_birthday(s);
@@ -60,7 +60,7 @@ static void run() {
     uint64_t done = 0;
     for (size_t i = 0; i < ts.size(); i++) {
         if ((int)(i % (size_t)a.nworkers) != a.worker) continue;
-        Case c; c.set("t", ts[i]); c.set("secret", hex(std::string(19, (char)(i * 7)))); c.set("chain", hex(std::string("\x00\x01\x02\x01\x00\x02", 6))); c.set("lang", REG->at(i).name_en); c.set("coin", (uint64_t)(i % 2048)); c.set("defaultclock", (uint64_t)(W().args.variant == "rel" ? 1 : 0));
+        Case c; c.set("t", ts[i]); c.set("secret", hex(std::string(19, (char)(i * 7)))); c.set("chain", hex(std::string("\x00\x01\x02\x01\x00\x02", 6))); c.set("lang", REG->at(i).name_en); c.set("coin", (uint64_t)(i % 2048)); c.set("defaultclock", (uint64_t)(W().args.variant == "rel" ? 1 : 0)); c.set("env", (uint64_t)(i % 8));
         set_current(c); std::string m = oracle(c); done++; if (!m.empty() && enum_fail(c, m)) return;
     }
     ev.enumerated["clock values at every month boundary -1/0/+1 and special values"] += done;
@@ -69,7 +69,7 @@ static void run() {
             {2, rc::gen::map(rc::gen::pair(in_range<uint64_t>(0, 1026), in_range<int>(-2, 3)), [](std::pair<uint64_t, int> p) -> uint64_t { return model::EPOCH + p.first * model::STEP + (uint64_t)(int64_t)p.second; })},
             {1, rc::gen::map(vf::u64(), [](uint64_t x) -> uint64_t { return x % model::EPOCH; })}, {1, rc::gen::map(vf::u64(), [](uint64_t x) -> uint64_t { return model::EPOCH + 1024 * model::STEP + x % (1ull << 40); })}, {1, rc::gen::element<uint64_t>(UINT64_MAX, UINT64_MAX - 1, 0, model::EPOCH, model::EPOCH - 1)}});
         Case c; c.set("t", t); c.set("secret", hex(*g::secret19())); c.set("ufeat", *in_range<unsigned>(0, 8)); c.set("chain", hex(*rc::gen::resize(10, rc::gen::container<std::vector<uint8_t>>(rc::gen::resize(100, rc::gen::inRange<uint8_t>(0, 4)))))); c.set("lang", REG->at(*g::lang_index()).name_en); c.set("coin", (uint64_t)*g::coin()); if (*in_range<int>(0, 8) == 0) c.set("flaky", *in_range<unsigned>(1, 4)); else if (W().args.variant == "rel" && *in_range<int>(0, 2)) c.set("defaultclock", 1);
-        set_current(c); std::string m = oracle(c); if (!m.empty()) VF_FAIL(c, m);
+        c.set("env", *in_range<unsigned>(0, 8)); set_current(c); std::string m = oracle(c); if (!m.empty()) VF_FAIL(c, m);
     });
 }
 int main(int argc, char** argv) { return worker_main(argc, argv, "C11", Hooks{run, [](const Case& c) { setup(); return oracle(c); }}); }
